@@ -111,6 +111,17 @@ func (w *World) external(fn *ssa.Function) externalFn {
 	switch {
 	case fn.Pkg == w.Main && strings.HasPrefix(fn.Name(), "verif") && !strings.HasPrefix(fn.Name(), "verifModel_") && apiFuncs[origin.Name()] != nil:
 		e = apiFuncs[origin.Name()]
+	case fn.Pkg == w.Main && w.overrides[fn.Name()] != nil:
+		// harness-provided replacement (verifOverride_<name>), active only
+		// while the harness has enabled overrides on this path
+		ov := w.overrides[fn.Name()]
+		orig := fn
+		e = func(fr *frame, args []value) value {
+			if !fr.i.ps.overridesOn {
+				return callSSABody(fr.i, fr.caller, orig, args)
+			}
+			return callSSA(fr.i, fr.caller, ov.Pos(), ov, args, nil)
+		}
 	case fn.Name() == "init" && fn.Pkg != nil && !w.target[fn.Pkg] && fn.Synthetic != "":
 		e = func(fr *frame, args []value) value { return nil }
 	case externals[name] != nil:
